@@ -15,7 +15,7 @@
 // Contracts are stated at the harness.  Byte VALUES are fully symbolic, the buffer LENGTH is
 // bounded (`_bounded_<n>`).
 use super::*;
-use crate::group::{ConfirmationTag, MessageSignature, RemoveProposal};
+use crate::group::{MessageSignature, RemoveProposal};
 use alloc::boxed::Box;
 use alloc::vec::Vec;
 use core::mem::ManuallyDrop;
